@@ -160,45 +160,71 @@ Proof.
   cbn [forallb fst]. now rewrite valid_filter_wf, IH.
 Qed.
 
-Lemma next_ideal (s : state) (o : op) :
-  repr (trie s) (sess s) ->
-  repr (trie (next ideal s o)) (sess (next ideal s o)) /\
-  sess (next ideal s o) = live_step (sess s) o.
+
+(** *** equivalence of finite maps as sets of entries *)
+Definition meq (m1 m2 : lmap) : Prop := forall x, In x m1 <-> In x m2.
+
+Lemma meq_refl (m : lmap) : meq m m.
+Proof. intro x. tauto. Qed.
+
+Lemma meq_sym (m1 m2 : lmap) : meq m1 m2 -> meq m2 m1.
+Proof. intros H x. symmetry. apply H. Qed.
+
+Lemma meq_trans (m1 m2 m3 : lmap) : meq m1 m2 -> meq m2 m3 -> meq m1 m3.
+Proof. intros H1 H2 x. rewrite (H1 x). apply H2. Qed.
+
+Lemma repr_meq (n : node) (m m' : lmap) : meq m m' -> repr n m -> repr n m'.
+Proof. intros He Hr. apply (repr_equiv n m m'); [|exact Hr]. intros k v. apply He. Qed.
+
+Lemma meq_lset (k : lkey) (v : qos) (m1 m2 : lmap) : meq m1 m2 -> meq (lset k v m1) (lset k v m2).
+Proof. intros H [k' v']. rewrite !In_lset. rewrite (H (k', v')). tauto. Qed.
+
+Lemma meq_lsub : forall fqs c m1 m2, meq m1 m2 -> meq (lsub c fqs m1) (lsub c fqs m2).
 Proof.
-  intro Hr. unfold next. destruct o as [c fqs | c fs | c]; cbn [step live_step ideal q_abort_on_malformed negb andb].
-  - rewrite <- forallb_valid_wf.
-    destruct (forallb (fun fq => valid_filter (fst fq)) fqs) eqn:Ev; cbn [negb].
-    + destruct (tm_subscribe_valid fqs c (trie s) (sess s) Ev Hr) as [n' [E Hr']].
-      rewrite E. cbn [fst trie sess]. auto.
-    + cbn [fst]. auto.
-  - cbn [fst trie sess]. split; [|reflexivity]. unfold tm_unsubscribe. cbn.
-    now apply repr_unsub_skip.
-  - cbn [fst trie sess]. split; [|reflexivity]. unfold tm_unsubscribe. cbn.
-    eapply repr_equiv; [apply lunsub_lfilters_drop|]. now apply repr_unsub_skip.
+  unfold lsub. induction fqs as [|[f q] r IH]; intros c m1 m2 H; [exact H|].
+  cbn [fold_left]. apply IH. now apply meq_lset.
 Qed.
 
-Lemma run_from_ideal : forall ops s,
-  repr (trie s) (sess s) ->
-  repr (trie (fold_left (next ideal) ops s)) (sess (fold_left (next ideal) ops s)) /\
-  sess (fold_left (next ideal) ops s) = fold_left live_step ops (sess s).
+(** *** connected clients and the visible part of the map *)
+Lemma is_on_aset (c c' : cid) (b : bool) (on : list (cid * bool)) :
+  is_on c (aset c' b on) = (c =? c') || is_on c on.
+Proof. unfold is_on. rewrite alookup_aset. destruct (c =? c'); reflexivity. Qed.
+
+Lemma is_on_aremove (c c' : cid) (on : list (cid * bool)) :
+  is_on c (aremove c' on) = negb (c =? c') && is_on c on.
+Proof. unfold is_on. rewrite alookup_aremove. destruct (c =? c'); reflexivity. Qed.
+
+Lemma In_vis (k : lkey) (v : qos) (on : list (cid * bool)) (m : lmap) :
+  In (k, v) (vis on m) <-> is_on (fst k) on = true /\ In (k, v) m.
+Proof. unfold vis. rewrite filter_In. cbn [fst]. tauto. Qed.
+
+Lemma meq_vis (on : list (cid * bool)) (m1 m2 : lmap) : meq m1 m2 -> meq (vis on m1) (vis on m2).
+Proof. intros H [k v]. rewrite !In_vis, (H (k, v)). tauto. Qed.
+
+Lemma vis_lset (on : list (cid * bool)) (c : cid) (f : string) (q : qos) (m : lmap) :
+  is_on c on = true -> meq (vis on (lset (c, f) q m)) (lset (c, f) q (vis on m)).
 Proof.
-  induction ops as [|o r IH]; intros s Hr; [auto|].
-  cbn [fold_left]. destruct (next_ideal s o Hr) as [H1 H2].
-  destruct (IH _ H1) as [H3 H4]. split; [exact H3|]. now rewrite H4, H2.
+  intros Hc [k v]. rewrite In_vis, !In_lset, In_vis. split.
+  - intros [H1 [[-> ->]|[H2 H3]]]; [left; auto | right; auto].
+  - intros [[-> ->]|[H2 [H1 H3]]]; [split; [exact Hc | left; auto] | split; [exact H1 | right; auto]].
 Qed.
 
-Lemma sess_run_live (ops : list op) : sess (run ideal ops) = live ops.
-Proof. apply (run_from_ideal ops st0 repr_empty). Qed.
-
-(** for every history the trie holds at filter [fl] exactly the (client, qos) pairs
-    of the live subscriptions whose filter splits into [fl] *)
-Theorem history_repr (ops : list op) : repr (trie (run ideal ops)) (live ops).
+Lemma vis_lsub : forall fqs on c m,
+  is_on c on = true -> meq (vis on (lsub c fqs m)) (lsub c fqs (vis on m)).
 Proof.
-  rewrite <- sess_run_live. apply (run_from_ideal ops st0 repr_empty).
+  induction fqs as [|[f q] r IH]; intros on c m Hc; [apply meq_refl|].
+  unfold lsub. cbn [fold_left fst snd]. fold (lsub c r (lset (c, f) q m)).
+  fold (lsub c r (lset (c, f) q (vis on m))).
+  eapply meq_trans; [apply IH; exact Hc|]. apply meq_lsub. now apply vis_lset.
 Qed.
 
-(** every live filter is well formed *)
+Lemma vis_lunsub (on : list (cid * bool)) (c : cid) (fs : list string) (m : lmap) :
+  meq (vis on (lunsub c fs m)) (lunsub c fs (vis on m)).
+Proof. intros [k v]. rewrite In_vis, !In_lunsub, In_vis. tauto. Qed.
+
+(** *** invariants of the session map *)
 Definition all_wf (m : lmap) : Prop := forall c f q, In ((c, f), q) m -> wf_filter f = true.
+Definition functional (m : lmap) : Prop := forall k v1 v2, In (k, v1) m -> In (k, v2) m -> v1 = v2.
 
 Lemma all_wf_lsub : forall fqs c m,
   forallb (fun fq => wf_filter (fst fq)) fqs = true -> all_wf m -> all_wf (lsub c fqs m).
@@ -211,20 +237,271 @@ Proof.
   - now apply (Hm c' f' q').
 Qed.
 
-Lemma all_wf_live_step (m : lmap) (o : op) : all_wf m -> all_wf (live_step m o).
+Lemma all_wf_sub (m m' : lmap) : (forall x, In x m' -> In x m) -> all_wf m -> all_wf m'.
+Proof. intros Hs Hm c f q Hin. apply (Hm c f q). now apply Hs. Qed.
+
+Lemma functional_sub (m m' : lmap) : (forall x, In x m' -> In x m) -> functional m -> functional m'.
+Proof. intros Hs Hm k v1 v2 H1 H2. apply (Hm k); now apply Hs. Qed.
+
+Lemma functional_lset (k : lkey) (v : qos) (m : lmap) : functional m -> functional (lset k v m).
 Proof.
-  intro Hm. destruct o as [c fqs | c fs | c]; cbn [live_step].
-  - destruct (forallb (fun fq => wf_filter (fst fq)) fqs) eqn:E; [now apply all_wf_lsub | exact Hm].
-  - intros c' f' q' Hin. apply In_lunsub in Hin as [Hin _]. now apply (Hm c' f' q').
-  - intros c' f' q' Hin. apply In_ldrop in Hin as [_ Hin]. now apply (Hm c' f' q').
+  intros Hm k' v1 v2 H1 H2. apply In_lset in H1, H2.
+  destruct H1 as [[E1 ->]|[N1 H1]], H2 as [[E2 ->]|[N2 H2]]; try congruence.
+  now apply (Hm k').
 Qed.
 
+Lemma functional_lsub : forall fqs c m, functional m -> functional (lsub c fqs m).
+Proof.
+  unfold lsub. induction fqs as [|[f q] r IH]; intros c m Hm; [exact Hm|].
+  cbn [fold_left]. apply IH. now apply functional_lset.
+Qed.
+
+Lemma ldrop_sub (c : cid) (m : lmap) : forall x, In x (ldrop c m) -> In x m.
+Proof. intros [k v] H. now apply In_ldrop in H. Qed.
+
+Lemma lunsub_sub (c : cid) (fs : list string) (m : lmap) : forall x, In x (lunsub c fs m) -> In x m.
+Proof. intros [k v] H. now apply In_lunsub in H. Qed.
+
+(** *** the abstraction of a broker state and the invariant *)
+Definition abs (s : state) : spec_state := {| sp_m := sess s; sp_on := online s |}.
+
+Definition inv (s : state) : Prop :=
+  repr (trie s) (vis (online s) (sess s)) /\ all_wf (sess s) /\ functional (sess s).
+
+Lemma inv0 : inv st0.
+Proof.
+  split; [|split].
+  - exact repr_empty.
+  - intros c f q [].
+  - intros k v1 v2 [].
+Qed.
+
+Lemma tm_subscribe_ok : forall fqs c n,
+  forallb (fun fq => valid_filter (fst fq)) fqs = true -> snd (tm_subscribe c fqs n) = true.
+Proof.
+  induction fqs as [|[f q] r IH]; intros c n Hv; [reflexivity|].
+  cbn [forallb fst] in Hv. apply andb_true_iff in Hv as [Hv1 Hv2].
+  cbn [tm_subscribe]. unfold valid_filter in Hv1.
+  destruct (split_topic f); [now apply IH | discriminate].
+Qed.
+
+Lemma tm_subscribe_q_ideal (c : cid) (fqs : list (string * qos)) (n : node) :
+  tm_subscribe_q ideal c fqs n =
+    if forallb (fun fq => wf_filter (fst fq)) fqs then (fst (tm_subscribe c fqs n), true) else (n, false).
+Proof.
+  unfold tm_subscribe_q. cbn [ideal q_abort_on_malformed negb andb]. rewrite forallb_valid_wf.
+  destruct (forallb (fun fq => wf_filter (fst fq)) fqs) eqn:Ev; cbn [negb]; [|reflexivity].
+  rewrite <- forallb_valid_wf in Ev. pose proof (tm_subscribe_ok fqs c n Ev) as Hok.
+  destruct (tm_subscribe c fqs n) as [n' ok]. cbn [snd] in Hok. subst ok. reflexivity.
+Qed.
+
+(** the abstraction commutes with every step: the session bookkeeping of the repaired
+    broker IS the naive replay *)
+Lemma abs_teardown (c : cid) (s : state) : abs (teardown ideal c s) = spec_teardown c (abs s).
+Proof.
+  unfold teardown, spec_teardown, abs. cbn [sp_on sp_m].
+  destruct (alookup c (online s)) as [clean|]; reflexivity.
+Qed.
+
+Lemma abs_connect (c : cid) (clean : bool) (s : state) :
+  abs (connect ideal c clean s) = spec_connect c clean (abs s).
+Proof. unfold connect, spec_connect, abs. destruct clean; reflexivity. Qed.
+
+Lemma abs_ensure (c : cid) (s : state) : abs (ensure_on ideal c s) = spec_ensure c (abs s).
+Proof.
+  unfold ensure_on, spec_ensure. cbn [abs sp_on]. destruct (is_on c (online s)); [reflexivity|].
+  apply abs_connect.
+Qed.
+
+Lemma abs_next (s : state) (o : op) : abs (next ideal s o) = spec_step (abs s) o.
+Proof.
+  unfold next. destruct o as [c clean | c fqs | c fs | c]; cbn [step spec_step fst].
+  - now rewrite abs_connect, abs_teardown.
+  - rewrite <- abs_ensure. rewrite tm_subscribe_q_ideal.
+    destruct (forallb (fun fq => wf_filter (fst fq)) fqs); cbn [fst]; [reflexivity|].
+    unfold abs. cbn [sess online]. reflexivity.
+  - rewrite <- abs_ensure. reflexivity.
+  - apply abs_teardown.
+Qed.
+
+Lemma abs_run_from : forall ops s,
+  abs (fold_left (next ideal) ops s) = fold_left spec_step ops (abs s).
+Proof.
+  induction ops as [|o r IH]; intros s; [reflexivity|].
+  cbn [fold_left]. now rewrite IH, abs_next.
+Qed.
+
+Lemma abs_run (ops : list op) : abs (run ideal ops) = spec ops.
+Proof. apply (abs_run_from ops st0). Qed.
+
+Lemma live_run (ops : list op) :
+  live ops = vis (online (run ideal ops)) (sess (run ideal ops)).
+Proof. unfold live, live_of. now rewrite <- abs_run. Qed.
+
+(** *** the invariant is preserved by every step *)
+Lemma In_lpairs (f : string) (q : qos) (c : cid) (m : lmap) :
+  In (f, q) (lpairs c m) <-> In ((c, f), q) m.
+Proof.
+  unfold lpairs. rewrite in_map_iff. split.
+  - intros [[[c' f'] q'] [E H]]. cbn [fst snd] in E. injection E as -> ->.
+    apply filter_In in H as [H1 H2]. cbn [fst] in H2. apply String.eqb_eq in H2. now subst c'.
+  - intro H. exists ((c, f), q). split; [reflexivity|]. apply filter_In. split; [exact H|].
+    cbn [fst]. apply String.eqb_refl.
+Qed.
+
+Lemma lset_functional_meq (k : lkey) (q : qos) (M : lmap) :
+  (forall v, In (k, v) M -> v = q) -> forall x, In x (lset k q M) <-> x = (k, q) \/ In x M.
+Proof.
+  intros Hf [k' v']. rewrite In_lset. split.
+  - intros [[-> ->]|[_ H]]; auto.
+  - intros [E|H].
+    + injection E as -> ->. left. auto.
+    + destruct (key_eqb k' k) eqn:Ek.
+      * apply key_eqb_eq in Ek. subst k'. left. split; [reflexivity|]. now apply Hf.
+      * right. split; [|exact H]. intro E. subst k'.
+        assert (key_eqb k k = true) by now apply key_eqb_eq. congruence.
+Qed.
+
+(** re-subscription from a stored session adds exactly the stored entries *)
+Lemma restore_meq (c : cid) (m : lmap) : functional m ->
+  forall pairs M,
+    (forall f q, In (f, q) pairs -> In ((c, f), q) m) ->
+    (forall x, In x M -> In x m) ->
+    forall x, In x (lsub c pairs M) <-> In x M \/ exists f q, x = ((c, f), q) /\ In (f, q) pairs.
+Proof.
+  intro Hfun. unfold lsub. induction pairs as [|[f0 q0] r IH]; intros M Hp HM x.
+  - cbn [fold_left]. split; [auto | intros [H|[f [q [_ []]]]]; exact H].
+  - cbn [fold_left fst snd].
+    assert (Hset : forall y, In y (lset (c, f0) q0 M) <-> y = ((c, f0), q0) \/ In y M).
+    { apply lset_functional_meq. intros v Hv. apply (Hfun (c, f0)); [now apply HM|].
+      apply Hp. now left. }
+    rewrite IH.
+    + rewrite Hset. split.
+      * intros [[->|H]|[f [q [-> H]]]].
+        -- right. exists f0, q0. split; [reflexivity | now left].
+        -- now left.
+        -- right. exists f, q. split; [reflexivity | now right].
+      * intros [H|[f [q [-> [E|H]]]]].
+        -- left. now right.
+        -- injection E as -> ->. left. now left.
+        -- right. exists f, q. auto.
+    + intros f q H. apply Hp. now right.
+    + intros y Hy. apply Hset in Hy as [->|Hy]; [apply Hp; now left | now apply HM].
+Qed.
+
+Lemma forallb_valid_lpairs (c : cid) (m : lmap) :
+  all_wf m -> forallb (fun fq => valid_filter (fst fq)) (lpairs c m) = true.
+Proof.
+  intro Hm. apply forallb_forall. intros [f q] Hin. cbn [fst]. rewrite valid_filter_wf.
+  apply In_lpairs in Hin. exact (Hm _ _ _ Hin).
+Qed.
+
+Lemma inv_teardown (c : cid) (s : state) : inv s -> inv (teardown ideal c s).
+Proof.
+  intros [Hr [Hw Hf]]. unfold teardown.
+  destruct (alookup c (online s)) as [clean|] eqn:Ec; [|split; [exact Hr | split; [exact Hw | exact Hf]]].
+  assert (Hsub : forall x, In x (if clean then ldrop c (sess s) else sess s) -> In x (sess s)).
+  { destruct clean; [apply ldrop_sub | auto]. }
+  split; [|split]; cbn [trie sess online].
+  - unfold tm_unsubscribe. cbn [ideal q_abort_on_malformed].
+    eapply repr_meq; [|apply repr_unsub_skip; exact Hr].
+    intros [[c' f] q]. rewrite In_lunsub, !In_vis. cbn [fst snd]. rewrite is_on_aremove, In_lfilters.
+    split.
+    + intros [[H1 H2] H3]. assert (Hne : c' <> c).
+      { intro E. subst c'. apply H3. split; [reflexivity|]. now exists q. }
+      apply String.eqb_neq in Hne. rewrite Hne, H1. split; [reflexivity|].
+      destruct clean; [|exact H2]. apply In_ldrop. cbn [fst]. split; [now apply String.eqb_neq | exact H2].
+    + intros [H1 H2]. apply andb_true_iff in H1 as [H0 H1]. apply negb_true_iff, String.eqb_neq in H0.
+      split; [split; [exact H1 | now apply Hsub]|]. intros [E _]. congruence.
+  - now apply (all_wf_sub (sess s)).
+  - now apply (functional_sub (sess s)).
+Qed.
+
+Lemma inv_connect (c : cid) (clean : bool) (s : state) :
+  is_on c (online s) = false -> inv s -> inv (connect ideal c clean s).
+Proof.
+  intros Hoff [Hr [Hw Hf]]. unfold connect. destruct clean.
+  - split; [|split]; cbn [trie sess online].
+    + eapply repr_meq; [|exact Hr]. intros [[c' f] q]. rewrite !In_vis, In_ldrop. cbn [fst].
+      rewrite is_on_aset. split.
+      * intros [H1 H2]. assert (Hne : c' <> c) by (intro E; subst c'; congruence).
+        apply String.eqb_neq in Hne as Hne'. rewrite Hne', H1. auto.
+      * intros [H1 [H2 H3]]. apply String.eqb_neq in H2. rewrite H2 in H1. auto.
+    + apply (all_wf_sub (sess s)); [apply ldrop_sub | exact Hw].
+    + apply (functional_sub (sess s)); [apply ldrop_sub | exact Hf].
+  - split; [|split]; cbn [trie sess online]; [|exact Hw|exact Hf].
+    rewrite tm_subscribe_q_ideal. rewrite <- forallb_valid_wf, (forallb_valid_lpairs c _ Hw). cbn [fst].
+    destruct (tm_subscribe_valid (lpairs c (sess s)) c (trie s) _ (forallb_valid_lpairs c _ Hw) Hr)
+      as [n' [E Hr']].
+    rewrite E. cbn [fst]. eapply repr_meq; [|exact Hr'].
+    intros [[c' f] q].
+    rewrite (restore_meq c (sess s) Hf (lpairs c (sess s)) (vis (online s) (sess s))).
+    + rewrite !In_vis. cbn [fst]. rewrite is_on_aset. split.
+      * intros [[H1 H2]|[f0 [q0 [E0 H]]]].
+        -- rewrite H1, orb_true_r. auto.
+        -- injection E0 as -> -> ->. rewrite String.eqb_refl. split; [reflexivity|]. now apply In_lpairs.
+      * intros [H1 H2]. destruct (c' =? c) eqn:Ecc.
+        -- apply String.eqb_eq in Ecc. subst c'. right. exists f, q. split; [reflexivity|]. now apply In_lpairs.
+        -- left. auto.
+    + intros f0 q0 H. now apply In_lpairs.
+    + intros [k v] H. now apply In_vis in H.
+Qed.
+
+Lemma teardown_off (c : cid) (s : state) : is_on c (online (teardown ideal c s)) = false.
+Proof.
+  unfold teardown. destruct (alookup c (online s)) as [clean|] eqn:Ec.
+  - cbn [online]. rewrite is_on_aremove, String.eqb_refl. reflexivity.
+  - unfold is_on. now rewrite Ec.
+Qed.
+
+Lemma inv_ensure (c : cid) (s : state) :
+  inv s -> inv (ensure_on ideal c s) /\ is_on c (online (ensure_on ideal c s)) = true.
+Proof.
+  intro Hi. unfold ensure_on. destruct (is_on c (online s)) eqn:Eon; [auto|].
+  split; [now apply inv_connect|]. unfold connect. cbn [online]. rewrite is_on_aset, String.eqb_refl. reflexivity.
+Qed.
+
+Lemma inv_next (s : state) (o : op) : inv s -> inv (next ideal s o).
+Proof.
+  intro Hi. unfold next. destruct o as [c clean | c fqs | c fs | c]; cbn [step fst].
+  - apply inv_connect; [apply teardown_off | now apply inv_teardown].
+  - destruct (inv_ensure c s Hi) as [[Hr [Hw Hf]] Hon].
+    set (s1 := ensure_on ideal c s) in *. rewrite tm_subscribe_q_ideal.
+    destruct (forallb (fun fq => wf_filter (fst fq)) fqs) eqn:Ev; cbn [fst].
+    + split; [|split]; cbn [trie sess online].
+      * rewrite <- forallb_valid_wf in Ev.
+        destruct (tm_subscribe_valid fqs c (trie s1) _ Ev Hr) as [n' [E Hr']].
+        rewrite E. cbn [fst]. eapply repr_meq; [apply meq_sym, vis_lsub; exact Hon | exact Hr'].
+      * now apply all_wf_lsub.
+      * now apply functional_lsub.
+    + split; [|split]; cbn [trie sess online]; assumption.
+  - destruct (inv_ensure c s Hi) as [[Hr [Hw Hf]] Hon].
+    set (s1 := ensure_on ideal c s) in *.
+    split; [|split]; cbn [trie sess online].
+    + unfold tm_unsubscribe. cbn [ideal q_abort_on_malformed].
+      eapply repr_meq; [apply meq_sym, vis_lunsub | now apply repr_unsub_skip].
+    + apply (all_wf_sub (sess s1)); [apply lunsub_sub | exact Hw].
+    + apply (functional_sub (sess s1)); [apply lunsub_sub | exact Hf].
+  - now apply inv_teardown.
+Qed.
+
+Lemma inv_run (ops : list op) : inv (run ideal ops).
+Proof.
+  unfold run. assert (G : forall ops s, inv s -> inv (fold_left (next ideal) ops s)).
+  { induction ops0 as [|o r IH]; intros s Hs; [exact Hs|]. cbn [fold_left]. apply IH. now apply inv_next. }
+  apply G. exact inv0.
+Qed.
+
+(** for every history the trie holds at filter [fl] exactly the (client, qos) pairs
+    of the live subscriptions whose filter splits into [fl] *)
+Theorem history_repr (ops : list op) : repr (trie (run ideal ops)) (live ops).
+Proof. rewrite live_run. apply (inv_run ops). Qed.
+
+(** every live filter is well formed *)
 Lemma live_wf (ops : list op) : all_wf (live ops).
 Proof.
-  unfold live. assert (G : forall ops m, all_wf m -> all_wf (fold_left live_step ops m)).
-  { induction ops0 as [|o r IH]; intros m Hm; [exact Hm|]. cbn [fold_left]. apply IH.
-    now apply all_wf_live_step. }
-  apply G. intros c f q [].
+  rewrite live_run. destruct (inv_run ops) as [_ [Hw _]].
+  intros c f q Hin. apply In_vis in Hin as [_ Hin]. exact (Hw _ _ _ Hin).
 Qed.
 
 (** *** routing *)
@@ -291,12 +568,15 @@ Definition strip_op (f : string) (o : op) : op :=
   match o with
   | Sub c fqs => Sub c (filter (fun fq => negb (fst fq =? f)) fqs)
   | Unsub c fs => Unsub c (filter (fun g => negb (g =? f)) fs)
-  | Disc c => Disc c
+  | o => o
   end.
 Definition strip (f : string) (ops : list op) : list op := map (strip_op f) ops.
 
 Definition stripped (f : string) (m m' : lmap) : Prop :=
   forall c g q, In ((c, g), q) m' <-> g <> f /\ In ((c, g), q) m.
+
+Definition sp_stripped (f : string) (sp sp' : spec_state) : Prop :=
+  sp_on sp' = sp_on sp /\ stripped f (sp_m sp) (sp_m sp').
 
 Lemma stripped_lsub : forall fqs f c m m',
   stripped f m m' ->
@@ -328,6 +608,10 @@ Proof.
   - intros [H1 [H2 H3]]. split; [auto|]. intros [E [Hin _]]. apply H3. auto.
 Qed.
 
+Lemma stripped_ldrop (f : string) (c : cid) (m m' : lmap) :
+  stripped f m m' -> stripped f (ldrop c m) (ldrop c m').
+Proof. intros Hs c' g q. rewrite !In_ldrop, (Hs c' g q). cbn [fst]. tauto. Qed.
+
 Lemma forallb_wf_strip (f : string) (fqs : list (string * qos)) :
   wf_filter f = true ->
   forallb (fun fq => wf_filter (fst fq)) (filter (fun fq => negb (fst fq =? f)) fqs) =
@@ -339,26 +623,54 @@ Proof.
   - cbn [forallb fst]. now rewrite IH.
 Qed.
 
-Lemma stripped_step (f : string) (m m' : lmap) (o : op) :
-  wf_filter f = true -> stripped f m m' ->
-  stripped f (live_step m o) (live_step m' (strip_op f o)).
+Lemma sp_stripped_teardown (f : string) (c : cid) (sp sp' : spec_state) :
+  sp_stripped f sp sp' -> sp_stripped f (spec_teardown c sp) (spec_teardown c sp').
 Proof.
-  intros Hf Hs. destruct o as [c fqs | c fs | c]; cbn [strip_op live_step].
-  - rewrite (forallb_wf_strip f fqs Hf).
-    destruct (forallb (fun fq => wf_filter (fst fq)) fqs); [now apply stripped_lsub | exact Hs].
-  - now apply stripped_lunsub.
-  - intros c' g q. rewrite !In_ldrop, (Hs c' g q). cbn [fst]. tauto.
+  intros [Ho Hs]. unfold spec_teardown. rewrite Ho.
+  destruct (alookup c (sp_on sp)) as [clean|]; [|split; assumption].
+  split; cbn [sp_on sp_m]; [reflexivity|]. destruct clean; [now apply stripped_ldrop | exact Hs].
+Qed.
+
+Lemma sp_stripped_connect (f : string) (c : cid) (clean : bool) (sp sp' : spec_state) :
+  sp_stripped f sp sp' -> sp_stripped f (spec_connect c clean sp) (spec_connect c clean sp').
+Proof.
+  intros [Ho Hs]. unfold spec_connect. split; cbn [sp_on sp_m]; [now rewrite Ho|].
+  destruct clean; [now apply stripped_ldrop | exact Hs].
+Qed.
+
+Lemma sp_stripped_ensure (f : string) (c : cid) (sp sp' : spec_state) :
+  sp_stripped f sp sp' -> sp_stripped f (spec_ensure c sp) (spec_ensure c sp').
+Proof.
+  intros H. unfold spec_ensure. destruct H as [Ho Hs]. rewrite Ho.
+  destruct (is_on c (sp_on sp)); [split; assumption|]. apply sp_stripped_connect. split; assumption.
+Qed.
+
+Lemma sp_stripped_step (f : string) (sp sp' : spec_state) (o : op) :
+  wf_filter f = true -> sp_stripped f sp sp' ->
+  sp_stripped f (spec_step sp o) (spec_step sp' (strip_op f o)).
+Proof.
+  intros Hf Hs. destruct o as [c clean | c fqs | c fs | c]; cbn [strip_op spec_step].
+  - now apply sp_stripped_connect, sp_stripped_teardown.
+  - rewrite (forallb_wf_strip f fqs Hf). pose proof (sp_stripped_ensure f c sp sp' Hs) as [Ho Hm].
+    destruct (forallb (fun fq => wf_filter (fst fq)) fqs); [|split; assumption].
+    split; cbn [sp_on sp_m]; [exact Ho | now apply stripped_lsub].
+  - pose proof (sp_stripped_ensure f c sp sp' Hs) as [Ho Hm].
+    split; cbn [sp_on sp_m]; [exact Ho | now apply stripped_lunsub].
+  - now apply sp_stripped_teardown.
 Qed.
 
 Lemma stripped_live (f : string) (ops : list op) :
   wf_filter f = true -> stripped f (live ops) (live (strip f ops)).
 Proof.
-  intro Hf. unfold live, strip.
-  assert (G : forall ops m m', stripped f m m' ->
-              stripped f (fold_left live_step ops m) (fold_left live_step (map (strip_op f) ops) m')).
-  { induction ops0 as [|o r IH]; intros m m' Hs; [exact Hs|].
-    cbn [map fold_left]. apply IH. now apply stripped_step. }
-  apply G. intros c g q. simpl. tauto.
+  intro Hf. assert (G : forall ops sp sp', sp_stripped f sp sp' ->
+              sp_stripped f (fold_left spec_step ops sp) (fold_left spec_step (map (strip_op f) ops) sp')).
+  { induction ops0 as [|o r IH]; intros sp sp' Hs; [exact Hs|].
+    cbn [map fold_left]. apply IH. now apply sp_stripped_step. }
+  assert (H0 : sp_stripped f sp0 sp0).
+  { split; [reflexivity|]. intros c g q. simpl. tauto. }
+  destruct (G ops sp0 sp0 H0) as [Ho Hm]. fold (spec ops) in Ho, Hm. fold (strip f ops) in Ho, Hm.
+  fold (spec (strip f ops)) in Ho, Hm.
+  intros c g q. unfold live, live_of. rewrite !In_vis, Ho, (Hm c g q). cbn [fst]. tauto.
 Qed.
 
 (** after any history that ends with no subscriber of filter [f] left, every topic is
@@ -378,8 +690,25 @@ Qed.
 Lemma run_snoc (Q : quirks) (ops : list op) (o : op) : run Q (ops ++ [o]) = next Q (run Q ops) o.
 Proof. unfold run. now rewrite fold_left_app. Qed.
 
-Lemma live_snoc (ops : list op) (o : op) : live (ops ++ [o]) = live_step (live ops) o.
-Proof. unfold live. now rewrite fold_left_app. Qed.
+Lemma spec_snoc (ops : list op) (o : op) : spec (ops ++ [o]) = spec_step (spec ops) o.
+Proof. unfold spec. now rewrite fold_left_app. Qed.
+
+Lemma spec_ensure_on (c : cid) (sp : spec_state) : is_on c (sp_on (spec_ensure c sp)) = true.
+Proof.
+  unfold spec_ensure. destruct (is_on c (sp_on sp)) eqn:E; [exact E|].
+  unfold spec_connect. cbn [sp_on]. rewrite is_on_aset, String.eqb_refl. reflexivity.
+Qed.
+
+(** connecting an offline client with a clean session changes no visible entry *)
+Lemma live_of_ensure (c : cid) (sp : spec_state) : meq (live_of (spec_ensure c sp)) (live_of sp).
+Proof.
+  unfold spec_ensure. destruct (is_on c (sp_on sp)) eqn:E; [apply meq_refl|].
+  intros [[c' f] q]. unfold live_of, spec_connect. cbn [sp_on sp_m]. rewrite !In_vis, In_ldrop. cbn [fst].
+  rewrite is_on_aset. split.
+  - intros [H1 [H2 H3]]. apply String.eqb_neq in H2. rewrite H2 in H1. auto.
+  - intros [H1 H2]. assert (Hne : c' <> c) by (intro; subst c'; congruence).
+    apply String.eqb_neq in Hne as Hne'. rewrite Hne', H1. auto.
+Qed.
 
 Theorem resubscribe_overwrites_qos (ops : list op) (c : cid) (f : string) (q : qos) :
   wf_filter f = true ->
@@ -389,16 +718,20 @@ Theorem resubscribe_overwrites_qos (ops : list op) (c : cid) (f : string) (q : q
 Proof.
   intros Hf ops'.
   assert (L : forall q', In ((c, f), q') (live ops') <-> q' = q).
-  { intro q'. unfold ops'. rewrite live_snoc. cbn [live_step forallb fst]. rewrite Hf. cbn [andb].
+  { intro q'. unfold ops', live. rewrite spec_snoc. cbn [spec_step forallb fst]. rewrite Hf. cbn [andb].
+    unfold live_of. cbn [sp_on sp_m]. rewrite In_vis. cbn [fst]. rewrite spec_ensure_on.
     unfold lsub. cbn [fold_left fst snd]. rewrite In_lset. split.
-    - intros [[_ ->]|[H _]]; [reflexivity | congruence].
-    - intros ->. left. auto. }
+    - intros [_ [[_ ->]|[H _]]]; [reflexivity | congruence].
+    - intros ->. split; [reflexivity|]. left. auto. }
   split; [exact L|]. intro q'. rewrite (history_repr ops' (split_slash f) c q'). rewrite <- L. split.
   - intros [f' [Hf' Hin]].
     assert (Hs : split_topic f = Some (split_slash f)) by (apply split_topic_some; auto).
     now rewrite (split_topic_inj _ _ _ Hs Hf').
   - intro Hin. exists f. split; [apply split_topic_some; auto | exact Hin].
 Qed.
+
+Lemma trie_ensure (c : cid) (s : state) : trie (ensure_on ideal c s) = trie s.
+Proof. unfold ensure_on, connect. destruct (is_on c (online s)); reflexivity. Qed.
 
 Theorem unsub_unknown_is_noop (ops : list op) (c : cid) (f : string) :
   (forall q, ~ In ((c, f), q) (live ops)) ->
@@ -409,29 +742,68 @@ Theorem unsub_unknown_is_noop (ops : list op) (c : cid) (f : string) :
 Proof.
   intros Hno ops'.
   assert (L : forall k v, In (k, v) (live ops') <-> In (k, v) (live ops)).
-  { intros k v. unfold ops'. rewrite live_snoc. cbn [live_step]. unfold lunsub. cbn [fold_left].
-    rewrite In_lremove. split; [tauto|]. intro H. split; [|exact H]. intro E. subst k. now apply (Hno v). }
+  { intros k v. unfold ops', live. rewrite spec_snoc. cbn [spec_step].
+    rewrite <- (live_of_ensure c (spec ops) (k, v)).
+    set (sp1 := spec_ensure c (spec ops)). unfold live_of. cbn [sp_on sp_m].
+    rewrite !In_vis. unfold lunsub. cbn [fold_left]. rewrite In_lremove. split; [tauto|].
+    intros [H1 H2]. split; [exact H1|]. split; [|exact H2]. intro E. subst k.
+    apply (Hno v). unfold live. apply (live_of_ensure c (spec ops)).
+    fold sp1. unfold live_of. apply In_vis. auto. }
   split; [exact L|]. split; [|now apply no_residue].
-  intro fl. unfold ops'. rewrite run_snoc. unfold next. cbn [step fst trie]. unfold tm_unsubscribe. cbn.
+  intro fl. unfold ops'. rewrite run_snoc. unfold next. cbn [step fst trie]. rewrite trie_ensure.
+  unfold tm_unsubscribe. cbn.
   destruct (split_topic f) as [fl0|] eqn:Ef; [|reflexivity].
   rewrite remove_spec. destruct (lev_eq_dec fl fl0) as [->|]; [|reflexivity].
   apply aremove_noop. intros v Hin. apply (history_repr ops) in Hin as [f' [Hf' Hin]].
   rewrite (split_topic_inj _ _ _ Hf' Ef) in Hin. now apply (Hno v).
 Qed.
 
-(** a SUBSCRIBE that carries a malformed filter is refused as a whole: no SUBACK, the
-    state is unchanged; and splitTopic itself refuses every malformed filter *)
+(** a SUBSCRIBE that carries a malformed filter is refused as a whole: no SUBACK, the trie
+    and the live subscriptions are unchanged; and splitTopic itself refuses every malformed filter *)
 Theorem malformed_rejected :
   (forall f, wf_filter f = false -> split_topic f = None) /\
   (forall ops c fqs, forallb (fun fq => wf_filter (fst fq)) fqs = false ->
-     step ideal (run ideal ops) (Sub c fqs) = (run ideal ops, Ack false) /\
-     live (ops ++ [Sub c fqs]) = live ops).
+     snd (step ideal (run ideal ops) (Sub c fqs)) = Ack false /\
+     trie (run ideal (ops ++ [Sub c fqs])) = trie (run ideal ops) /\
+     forall x, In x (live (ops ++ [Sub c fqs])) <-> In x (live ops)).
 Proof.
   split.
   - intros f Hf. rewrite split_topic_spec, Hf. reflexivity.
-  - intros ops c fqs Hv. split.
-    + cbn [step ideal q_abort_on_malformed negb andb]. now rewrite forallb_valid_wf, Hv.
-    + rewrite live_snoc. cbn [live_step]. now rewrite Hv.
+  - intros ops c fqs Hv. split; [|split].
+    + cbn [step]. rewrite tm_subscribe_q_ideal, Hv. reflexivity.
+    + rewrite run_snoc. unfold next. cbn [step]. rewrite tm_subscribe_q_ideal, Hv. cbn [fst trie].
+      apply trie_ensure.
+    + intro x. unfold live. rewrite spec_snoc. cbn [spec_step]. rewrite Hv. apply live_of_ensure.
+Qed.
+
+(** a disconnected client is not routed; a persistent session that reconnects gets back
+    exactly the subscriptions that were live when its connection ended *)
+Theorem offline_not_live (ops : list op) (c : cid) :
+  forall f q, ~ In ((c, f), q) (live (ops ++ [Disc c])).
+Proof.
+  intros f q. unfold live. rewrite spec_snoc. cbn [spec_step]. unfold live_of, spec_teardown.
+  destruct (alookup c (sp_on (spec ops))) as [clean|] eqn:E.
+  - cbn [sp_on sp_m]. rewrite In_vis. cbn [fst]. rewrite is_on_aremove, String.eqb_refl. intros [H _]. discriminate.
+  - rewrite In_vis. cbn [fst]. unfold is_on. rewrite E. intros [H _]. discriminate.
+Qed.
+
+Theorem reconnect_restores (ops : list op) (c : cid) :
+  alookup c (sp_on (spec ops)) = Some false ->
+  forall x, In x (live (ops ++ [Disc c; Conn c false])) <-> In x (live ops).
+Proof.
+  intros Hc [[c' f] q]. unfold live.
+  replace (ops ++ [Disc c; Conn c false]) with ((ops ++ [Disc c]) ++ [Conn c false])
+    by (rewrite <- app_assoc; reflexivity).
+  rewrite !spec_snoc. cbn [spec_step]. set (sp := spec ops) in *.
+  assert (E1 : spec_teardown c sp = {| sp_m := sp_m sp; sp_on := aremove c (sp_on sp) |}).
+  { unfold spec_teardown. now rewrite Hc. }
+  rewrite E1. unfold spec_teardown at 1. cbn [sp_on]. rewrite alookup_aremove, String.eqb_refl.
+  unfold spec_connect, live_of. cbn [sp_on sp_m]. rewrite !In_vis. cbn [fst].
+  rewrite is_on_aset, is_on_aremove.
+  assert (Hon : is_on c (sp_on sp) = true) by (unfold is_on; now rewrite Hc).
+  destruct (c' =? c) eqn:Ecc; cbn [negb andb orb].
+  - apply String.eqb_eq in Ecc. subst c'. rewrite Hon. tauto.
+  - tauto.
 Qed.
 
 (** *** the per-run property checker accepts every trace of the repaired model:
@@ -456,47 +828,49 @@ Proof.
   - apply existsb_exists. exists (c, q). split; [now apply H|]. cbn [fst]. apply String.eqb_refl.
 Qed.
 
-Lemma prop_checker_sound_from : forall ops s,
-  repr (trie s) (sess s) -> all_wf (sess s) ->
-  prop_trace (sess s) ops (model_trace ideal s ops) = true.
+Lemma step_out_ideal (s : state) (o : op) :
+  snd (step ideal s o) =
+    match o with
+    | Sub _ fqs => Ack (forallb (fun fq => wf_filter (fst fq)) fqs)
+    | Unsub _ _ => Ack true
+    | _ => NoOut
+    end.
 Proof.
-  induction ops as [|o r IH]; intros s Hr Hw; [reflexivity|].
+  destruct o as [c clean | c fqs | c fs | c]; cbn [step snd]; try reflexivity.
+  rewrite tm_subscribe_q_ideal. destruct (forallb (fun fq => wf_filter (fst fq)) fqs); reflexivity.
+Qed.
+
+Lemma prop_checker_sound_from : forall ops s,
+  inv s -> prop_trace (abs s) ops (model_trace ideal s ops) = true.
+Proof.
+  induction ops as [|o r IH]; intros s Hi; [reflexivity|].
   destruct o as [o|t]; cbn [model_trace].
-  - destruct (next_ideal s o Hr) as [Hr' Hs']. unfold next in Hr', Hs'.
-    destruct (step ideal s o) as [s' out] eqn:Est. cbn [fst] in Hr', Hs'.
-    cbn [prop_trace]. rewrite <- Hs'. rewrite IH; [|exact Hr'|rewrite Hs'; now apply all_wf_live_step].
-    rewrite andb_true_r.
-    destruct o as [c fqs | c fs | c]; cbn [step ideal q_abort_on_malformed negb andb] in Est.
-    + rewrite forallb_valid_wf in Est.
-      destruct (forallb (fun fq => wf_filter (fst fq)) fqs) eqn:Ev; cbn [negb] in Est.
-      * rewrite <- forallb_valid_wf in Ev.
-        destruct (tm_subscribe_valid fqs c (trie s) (sess s) Ev Hr) as [n' [E _]].
-        rewrite E in Est. injection Est as <- <-. reflexivity.
-      * injection Est as <- <-. reflexivity.
-    + injection Est as <- <-. reflexivity.
-    + injection Est as <- <-. reflexivity.
-  - cbn [prop_trace]. rewrite (IH s Hr Hw), andb_true_r.
+  - pose proof (step_out_ideal s o) as Hout. pose proof (abs_next s o) as Habs.
+    pose proof (inv_next s o Hi) as Hi'. unfold next in Habs, Hi'.
+    destruct (step ideal s o) as [s' out]. cbn [fst snd] in *. subst out.
+    cbn [prop_trace]. rewrite <- Habs, (IH s' Hi'), andb_true_r.
+    destruct o as [c clean | c fqs | c fs | c]; try reflexivity. apply eqb_reflx.
+  - cbn [prop_trace]. rewrite (IH s Hi), andb_true_r.
     destruct (has_wild t) eqn:Ht; [reflexivity|].
     destruct (topic_name_accepted t Ht) as [Hs Hn]. unfold find. rewrite Hs.
+    destruct Hi as [Hr [Hw _]].
     apply found_agree_sets. intros [c q].
-    rewrite find_frontier_eq_find1, find1_spec, In_expected. split.
+    rewrite find_frontier_eq_find1, find1_spec, In_expected. unfold live_of, abs. cbn [sp_on sp_m]. split.
     + intros [fl [Hg Hin]]. apply Hr in Hin as [f [Hf Hin]]. exists f. split; [exact Hin|].
       apply split_topic_some in Hf as [_ ->]. apply matches_dec_correct. now apply gomatches_matches.
     + intros [f [Hin Hm]]. exists (split_slash f). split.
       * apply matches_gomatches; [exact Hn|]. now apply matches_dec_correct.
       * apply Hr. exists f. split; [|exact Hin]. apply split_topic_some. split; [|reflexivity].
-        exact (Hw _ _ _ Hin).
+        apply In_vis in Hin as [_ Hin]. exact (Hw _ _ _ Hin).
 Qed.
 
 Theorem prop_checker_sound (ops : list tr_op) :
-  prop_trace [] ops (model_trace ideal st0 ops) = true.
-Proof.
-  apply (prop_checker_sound_from ops st0); [exact repr_empty | intros c f q []].
-Qed.
+  prop_trace sp0 ops (model_trace ideal st0 ops) = true.
+Proof. apply (prop_checker_sound_from ops st0 inv0). Qed.
 
-(** *** the unchanged code (flag on) violates the property: after SUBSCRIBE [a/b; a/#/b]
-    (refused) and the disconnect of c1, topic a/b is still routed to c1 although no
-    live subscription exists *)
+(** *** the code before commit ce10de8 (flag on) violates the property: after SUBSCRIBE
+    [a/b; a/#/b] (refused) and the disconnect of c1, topic a/b is still routed to c1
+    although no live subscription exists *)
 Definition pinned_code : quirks := {| q_abort_on_malformed := true |}.
 
 Theorem refuted_q_abort_on_malformed :
@@ -509,14 +883,24 @@ Proof.
   eexists. split; [vm_compute; reflexivity|]. left. reflexivity.
 Qed.
 
-(** *** the unchanged code: on histories in which no multi-filter packet carries a
-    malformed filter the code (flag on) and the repaired model coincide, so every
-    theorem above holds for the unchanged code on those histories *)
+(** the same for UNSUBSCRIBE [a+; a/b]: acknowledged, forgotten by the session, kept by the trie *)
+Theorem refuted_q_abort_on_malformed_unsub :
+  exists ops T c q,
+    has_wild T = false /\ live ops = [] /\
+    exists r, find (trie (run pinned_code ops)) T = Some r /\ In (c, q) r.
+Proof.
+  exists [Sub "c1" [("a/b", 1%N)]; Unsub "c1" ["a+"; "a/b"]; Disc "c1"], "a/b", "c1", 1%N.
+  split; [reflexivity|]. split; [vm_compute; reflexivity|].
+  eexists. split; [vm_compute; reflexivity|]. left. reflexivity.
+Qed.
+
+(** *** with the flag on, histories in which no multi-filter packet carries a malformed
+    filter reach exactly the states of the repaired model *)
 Definition clean_op (o : op) : bool :=
   match o with
   | Sub _ fqs => forallb (fun fq => wf_filter (fst fq)) fqs || (List.length fqs <=? 1)%nat
   | Unsub _ fs => forallb wf_filter fs || (List.length fs <=? 1)%nat
-  | Disc _ => true
+  | _ => true
   end.
 
 Lemma abort_eq_skip_valid : forall fs c n,
@@ -540,30 +924,73 @@ Proof.
   exact (Hm _ _ _ Hin).
 Qed.
 
-Lemma state_eta (s : state) : {| trie := trie s; sess := sess s |} = s.
-Proof. destruct s; reflexivity. Qed.
+Lemma teardown_pinned (c : cid) (s : state) :
+  all_wf (sess s) -> teardown pinned_code c s = teardown ideal c s.
+Proof.
+  intro Hw. unfold teardown. destruct (alookup c (online s)); [|reflexivity].
+  unfold tm_unsubscribe. cbn [pinned_code ideal q_abort_on_malformed].
+  now rewrite (abort_eq_skip_valid _ c (trie s) (forallb_wf_lfilters c _ Hw)).
+Qed.
+
+Lemma connect_pinned (c : cid) (clean : bool) (s : state) :
+  all_wf (sess s) -> connect pinned_code c clean s = connect ideal c clean s.
+Proof.
+  intro Hw. unfold connect. destruct clean; [reflexivity|]. f_equal.
+  unfold tm_subscribe_q. cbn [pinned_code ideal q_abort_on_malformed negb andb].
+  now rewrite (forallb_valid_lpairs c _ Hw).
+Qed.
+
+Lemma ensure_pinned (c : cid) (s : state) :
+  all_wf (sess s) -> ensure_on pinned_code c s = ensure_on ideal c s.
+Proof. intro Hw. unfold ensure_on. destruct (is_on c (online s)); [reflexivity | now apply connect_pinned]. Qed.
+
+Lemma all_wf_teardown (c : cid) (s : state) : all_wf (sess s) -> all_wf (sess (teardown ideal c s)).
+Proof.
+  intro Hw. unfold teardown. destruct (alookup c (online s)) as [[|]|]; cbn [sess]; try exact Hw.
+  apply (all_wf_sub (sess s)); [apply ldrop_sub | exact Hw].
+Qed.
+
+Lemma all_wf_connect (c : cid) (clean : bool) (s : state) :
+  all_wf (sess s) -> all_wf (sess (connect ideal c clean s)).
+Proof.
+  intro Hw. unfold connect. destruct clean; cbn [sess]; [|exact Hw].
+  apply (all_wf_sub (sess s)); [apply ldrop_sub | exact Hw].
+Qed.
+
+Lemma all_wf_ensure (c : cid) (s : state) : all_wf (sess s) -> all_wf (sess (ensure_on ideal c s)).
+Proof. intro Hw. unfold ensure_on. destruct (is_on c (online s)); [exact Hw | now apply all_wf_connect]. Qed.
+
+Lemma all_wf_next (s : state) (o : op) : all_wf (sess s) -> all_wf (sess (next ideal s o)).
+Proof.
+  intro Hw. unfold next. destruct o as [c clean | c fqs | c fs | c]; cbn [step fst].
+  - now apply all_wf_connect, all_wf_teardown.
+  - rewrite tm_subscribe_q_ideal. pose proof (all_wf_ensure c s Hw) as Hw1.
+    destruct (forallb (fun fq => wf_filter (fst fq)) fqs) eqn:Ev; cbn [fst sess]; [|exact Hw1].
+    now apply all_wf_lsub.
+  - cbn [sess]. apply (all_wf_sub (sess (ensure_on ideal c s))); [apply lunsub_sub | now apply all_wf_ensure].
+  - now apply all_wf_teardown.
+Qed.
 
 Lemma next_pinned_clean (s : state) (o : op) :
-  clean_op o = true -> all_wf (sess s) ->
-  next pinned_code s o = next ideal s o /\ all_wf (sess (next ideal s o)).
+  clean_op o = true -> all_wf (sess s) -> next pinned_code s o = next ideal s o.
 Proof.
   intros Hc Hw. unfold next.
-  destruct o as [c fqs | c fs | c]; cbn [step ideal pinned_code q_abort_on_malformed negb andb clean_op] in *.
-  - rewrite forallb_valid_wf.
-    destruct (forallb (fun fq => wf_filter (fst fq)) fqs) eqn:Ev; cbn [negb].
-    + split; [reflexivity|]. destruct (tm_subscribe c fqs (trie s)) as [n' [|]]; cbn [fst sess]; [|exact Hw].
-      now apply all_wf_lsub.
-    + cbn [orb] in Hc. split; [|exact Hw]. destruct fqs as [|[f q] [|fq2 r]]; [discriminate | | discriminate].
+  destruct o as [c clean | c fqs | c fs | c]; cbn [step fst clean_op] in *.
+  - rewrite (teardown_pinned c s Hw). apply connect_pinned. now apply all_wf_teardown.
+  - rewrite (ensure_pinned c s Hw). set (s1 := ensure_on ideal c s).
+    rewrite tm_subscribe_q_ideal. unfold tm_subscribe_q. cbn [pinned_code q_abort_on_malformed negb andb].
+    destruct (forallb (fun fq => wf_filter (fst fq)) fqs) eqn:Ev.
+    + rewrite <- forallb_valid_wf in Ev. pose proof (tm_subscribe_ok fqs c (trie s1) Ev) as Hok.
+      destruct (tm_subscribe c fqs (trie s1)) as [n' ok]. cbn [snd fst] in *. subst ok. reflexivity.
+    + cbn [orb] in Hc. destruct fqs as [|[f q] [|fq2 r]]; [discriminate | | discriminate].
       cbn [forallb fst andb] in Ev. rewrite andb_true_r in Ev.
-      cbn [tm_subscribe]. rewrite split_topic_spec, Ev. cbn [fst]. apply state_eta.
-  - cbn [fst sess]. split.
-    + unfold tm_unsubscribe. cbn. f_equal. apply orb_true_iff in Hc as [Hc|Hc].
-      * now rewrite abort_eq_skip_valid.
-      * now rewrite abort_eq_skip_short.
-    + intros c' f' q' Hin. apply In_lunsub in Hin as [Hin _]. exact (Hw _ _ _ Hin).
-  - cbn [fst sess]. split.
-    + unfold tm_unsubscribe. cbn. f_equal. apply abort_eq_skip_valid. now apply forallb_wf_lfilters.
-    + intros c' f' q' Hin. apply In_ldrop in Hin as [_ Hin]. exact (Hw _ _ _ Hin).
+      cbn [tm_subscribe]. rewrite split_topic_spec, Ev. cbn [fst]. destruct s1; reflexivity.
+  - rewrite (ensure_pinned c s Hw). cbn [fst]. f_equal.
+    unfold tm_unsubscribe. cbn [pinned_code ideal q_abort_on_malformed].
+    apply orb_true_iff in Hc as [Hc|Hc].
+    + now rewrite abort_eq_skip_valid.
+    + now rewrite abort_eq_skip_short.
+  - now apply teardown_pinned.
 Qed.
 
 Theorem unchanged_code_on_clean_histories (ops : list op) :
@@ -573,28 +1000,21 @@ Proof.
     fold_left (next pinned_code) ops s = fold_left (next ideal) ops s).
   { induction ops0 as [|o r IH]; intros s Hc Hw; [reflexivity|].
     cbn [forallb] in Hc. apply andb_true_iff in Hc as [Hc1 Hc2].
-    destruct (next_pinned_clean s o Hc1 Hw) as [E Hw']. cbn [fold_left]. rewrite E. now apply IH. }
+    cbn [fold_left]. rewrite (next_pinned_clean s o Hc1 Hw). apply IH; [exact Hc2 | now apply all_wf_next]. }
   intro Hc. apply G; [exact Hc | intros c f q []].
 Qed.
 
-(** the same for UNSUBSCRIBE [a+; a/b]: acknowledged, forgotten by the session, kept by the trie *)
-Theorem refuted_q_abort_on_malformed_unsub :
-  exists ops T c q,
-    has_wild T = false /\ live ops = [] /\
-    exists r, find (trie (run pinned_code ops)) T = Some r /\ In (c, q) r.
-Proof.
-  exists [Sub "c1" [("a/b", 1%N)]; Unsub "c1" ["a+"; "a/b"]; Disc "c1"], "a/b", "c1", 1%N.
-  split; [reflexivity|]. split; [vm_compute; reflexivity|].
-  eexists. split; [vm_compute; reflexivity|]. left. reflexivity.
-Qed.
-
 (** non-vacuity: a concrete history with shared prefixes, '+', parent-level '#',
-    re-subscription, unsubscription and a disconnect *)
+    re-subscription, unsubscription, a persistent session that drops and reconnects,
+    a take-over with a clean session and a disconnect *)
 Example C14_nonvacuous :
-  let ops := [Sub "c1" [("a/+", 0%N); ("a/#", 1%N)]; Sub "c2" [("a/b", 2%N)]; Sub "c1" [("a/+", 2%N)];
-              Sub "c3" [("#", 0%N); ("a/b/#", 1%N)]; Unsub "c2" ["a/b"; "zz"]; Disc "c3"] in
-  live ops = [(("c1", "a/+"), 2%N); (("c1", "a/#"), 1%N)] /\
-  find (trie (run ideal ops)) "a/b" = Some [("c1", 1%N); ("c1", 2%N)] /\
-  find (trie (run ideal ops)) "a" = Some [("c1", 1%N)] /\
-  find (trie (run ideal ops)) "b" = Some [].
+  let ops := [Conn "c1" false; Sub "c1" [("a/+", 0%N); ("a/#", 1%N)]; Sub "c2" [("a/b", 2%N)];
+              Sub "c1" [("a/+", 2%N)]; Sub "c3" [("#", 0%N); ("a/b/#", 1%N)]; Unsub "c2" ["a/b"; "zz"];
+              Disc "c3"; Disc "c1"] in
+  live ops = [] /\
+  find (trie (run ideal ops)) "a/b" = Some [] /\
+  live (ops ++ [Conn "c1" false]) = [(("c1", "a/+"), 2%N); (("c1", "a/#"), 1%N)] /\
+  find (trie (run ideal (ops ++ [Conn "c1" false]))) "a" = Some [("c1", 1%N)] /\
+  live (ops ++ [Conn "c1" false; Conn "c1" true]) = [] /\
+  find (trie (run ideal (ops ++ [Conn "c1" false; Conn "c1" true]))) "a/b" = Some [].
 Proof. vm_compute. repeat split; reflexivity. Qed.
